@@ -68,6 +68,13 @@ def _resolve_type(type_: Any, memo: TypeCheckMemo) -> Any:
     origin = get_origin(type_)
     if origin:
         args = get_args(type_)
+        if origin is Annotated:
+            # Only the first argument is a type; string metadata are not forward references
+            primary, *metadata = args
+            resolved_metadata = tuple(
+                m if isinstance(m, str) else _resolve_type(m, memo) for m in metadata
+            )
+            return Annotated[(_resolve_type(primary, memo), *resolved_metadata)]
         resolved_args = tuple(_resolve_type(arg, memo) for arg in args)
         if origin in {Union, UnionType}:  # Handle both Union and new | syntax
             return Union[resolved_args]  # noqa: UP007
